@@ -19,6 +19,7 @@ RULE = ('for every typed position of generated specs: reference encodings of val
         '(AV read-back + reference predicate) or ValidationError; documents a reference classifier marks '
         'must-accept / must-reject are judged, unspecified ones only for the first clause. distinct = '
         'distinct (mutation, expected class, outcome, mode) tuples')
+RULE += ' ' + 'Text that is not JSON (also NaN/Infinity tokens and 200000-deep nesting) goes through json_decode and must end in ValidationError.'
 ASSUMPTIONS = ['classifier vf/ref/wire.py returns unspecified wherever the documents are silent '
                '(bool for number, 1.0 for integer, lax base64, null for an all-optional struct, extra keys '
                'next to a nested member in lenient mode, bare string for a nullable member)']
